@@ -55,6 +55,10 @@ GlobalGraph& GlobalGraph::operator=(const GlobalGraph& gg)
   edgeStructure_ = gg.edgeStructure_;
   root_ = gg.root_;
 
+  // a tree or DAG container assigned through its GlobalGraph part must not keep a validity
+  // cached for the former content
+  this->topologyHasChanged_();
+
   notifyDeletedEdges(formerEdges);
   notifyDeletedNodes(formerNodes);
 
